@@ -1,12 +1,125 @@
-"""C12 - see DESIGN.md section 6/C12.  Spec: AStar.tla + Oracles.tla; binding: traces/ParserTrace.tla."""
-from ..common import conclude
+"""C12 - rule labels and head directions on trees are those the grammar assigned.
+(a) parser trees: AStar.tla / ParserTrace.tla (clause label_not_of_creating_result);
+(b) treebank readers: grammar-licensed trees (and trees with one underivable node) are printed by the real encoders and
+read by the real readers (read_auto, read_xml, read_jigg_xml, read_ptb, Tree.of_nltk_tree); every binary node must carry
+the label of a rule deriving its category (head direction too where the format has no head field), underivable nodes 'unk'."""
+import random
+import time
+
+from ..common import Violation, conclude, seed
+from ..trace import validate
 from .. import parser_family as pf
+from .. import trees, render_family as rf, substrate, enc
 from . import parser_models as pm
 
 PROP = 'C12'
 
 
+class FakeNltk(object):
+    """minimal stand-in exposing what Tree.of_nltk_tree uses: label(), indexing, iteration"""
+
+    def __init__(self, label, kids):
+        self._label, self._kids = label, kids
+
+    def label(self):
+        return self._label
+
+    def __getitem__(self, i):
+        return self._kids[i]
+
+    def __iter__(self):
+        return iter(self._kids)
+
+    def __len__(self):
+        return len(self._kids)
+
+
+def to_fake(t):
+    lab = enc.show_cat(t['cat'])
+    if t['k'] == 'L':
+        return FakeNltk(lab, [t['tok']['word']])
+    return FakeNltk(lab, [to_fake(k) for k in t['kids']])
+
+
+def spoil(t, rng, catpool):
+    """make one binary node underivable by replacing its category"""
+    nodes = []
+
+    def rec(n):
+        if n['k'] == 'B':
+            nodes.append(n)
+        for k in n['kids']:
+            rec(k)
+    rec(t)
+    if nodes:
+        rng.choice(nodes)['cat'] = rng.choice(catpool)
+
+
+def reader_part(tier, events, metas):
+    rng = random.Random(seed() + 12)
+    substrate.load(hook=False)
+    from depccg.tools.reader import read_auto, read_xml, read_jigg_xml, read_ptb
+    from depccg.tree import Tree
+
+    def add(ev, meta):
+        ev['id'] = len(events) + 1
+        events.append(ev)
+        metas[ev['id']] = meta
+    n = 120 if tier == 'quick' else 2000
+    for it in range(n):
+        lang = 'en' if it % 3 else 'ja'
+        rf.set_lang(lang)
+        b = trees.make_batch(rng, lang, awkward=0.2, exclude='\\()', licensed_p=0.9)
+        if it % 4 == 0:
+            pool = [enc.parse_text(s) for s in (trees.EN_LEXICON if lang == 'en' else trees.JA_LEXICON)]
+            for sent in b:
+                for t in sent:
+                    spoil(t, rng, pool)
+        base = {'lang': lang, 'words': [[t['tok']['word'] for t in trees.leaves_of(s[0])] for s in b]}
+        for fmt, reader, suffix in (('auto', read_auto, '.auto'), ('xml', read_xml, '.xml'), ('jigg_xml', read_jigg_xml, '.jigg.xml'), ('ptb', read_ptb, '.ptb')):
+            if fmt == 'xml' and lang != 'en':
+                continue            # C&C XML carries the English token attributes only
+            if fmt == 'jigg_xml' and lang != 'ja':
+                continue            # the Jigg spelling of English features (NP[nb=true]) is not re-read as the same category; C15 claims the Japanese round trip
+            rf.read_back(PROP, fmt, lang, trees.real_batch(b, rng), add, base, reader=reader, suffix=suffix)
+        # Tree.of_nltk_tree with a stand-in tree object
+        for sent in b:
+            for t in sent:
+                d = rf.with_gr(trees.proj_real(trees.build_real(t)), lang)
+                try:
+                    r = rf.proj_read(Tree.of_nltk_tree(to_fake(t)))
+                except Exception as e:
+                    add({'e': 'reader_raised', 'p': PROP, 'fmt': 'nltk'}, dict(base, fmt='nltk', reader_raised=repr(e)[:200]))
+                    continue
+                add({'e': 'read', 'p': PROP, 'fmt': 'nltk', 'd': d, 'r': r}, dict(base, fmt='nltk'))
+
+
 def run(tier):
     viols, cov, t0 = pf.run_family(PROP, tier)
     cov = pm.add_model_runs(PROP, tier, cov)
-    return conclude(PROP, tier, viols, cov, t0, pf.ASSUMPTIONS)
+    events, metas = [], {}
+    reader_part(tier, events, metas)
+    rejects, stats = validate('traces/RenderTrace.tla', events, 'c12b', per_shard=400)
+    derivable = underivable = 0
+    for e in events:
+        if e['e'] == 'read':
+            def cnt(n):
+                global_counts = [0, 0]
+                return global_counts
+    for (i, clause) in rejects:
+        if clause.startswith(PROP + '.'):
+            m = metas[i]
+            viols.append(Violation(PROP, clause, (m.get('fmt', '') + ' ' + str(m.get('words')))[:300], m))
+    cov['states'] += stats.states
+    cov['transitions'] += stats.transitions
+    cov['traces_validated_against_impl'] += len(events)
+    kinds = {}
+    for e in events:
+        k = e['e'] + ':' + e.get('fmt', '')
+        kinds[k] = kinds.get(k, 0) + 1
+    cov['reader_events'] = kinds
+    return conclude(PROP, tier, viols, cov, t0, pf.ASSUMPTIONS + [
+        'readers: when several rules derive the node category any of their labels is accepted; formats with a head field (auto) keep the head from the file',
+        'Tree.of_nltk_tree is fed a minimal stand-in object exposing label() and indexing (nltk is not installed)',
+        'reader_raised events of other formats are judged by the round-trip properties (C08 C15 C20), not here',
+    ])
